@@ -421,7 +421,8 @@ def checkCase (j : Json) : Except String Verdict := do
             strD stt "sid" == strD csr "sid" && strD stt "uri" == strD csr "uri"
           let (gres, _) := validateGroup u.groups a
           let gans : GroupAns := match gres with | .ok _ true => .member | .ok _ false => .notMember | _ => .error
-          if okFlow && strD inp "errParam" == "" && strD inp "code" != "" && strD rd "kind" == "ok" && strD rd "email" != "" &&
+          -- (only when the callback handler ran at all: a plain-http request to a secure deployment is upgraded with 301 first)
+          if status != 301 && okFlow && strD inp "errParam" == "" && strD inp "code" != "" && strD rd "kind" == "ok" && strD rd "email" != "" &&
              specAdmit lower u.rules (toB (strD rd "email")) gans then
             v := v.mon "C11" "login_refuses_despite_rule" idx
       -- ---------------- C19 (proxy half): sign-out
